@@ -4,6 +4,7 @@ package main
 
 import (
 	"fmt"
+	"go/constant"
 	"go/token"
 	"go/types"
 	"strings"
@@ -92,6 +93,13 @@ func (g *FuncGen) pureUnknown(name string, cc *ssa.CallCommon, res ssa.Value) *V
 		v := Val{Tup: []Val{}}
 		return &v
 	}
+	if name == "fmt.Sprintf" {
+		if t, ok := g.sprintfOfStrings(cc); ok {
+			g.c.note("fmt.Sprintf with a constant format of %s/%v verbs over string arguments is modelled as concatenation")
+			v := g.define(res, t)
+			return &v
+		}
+	}
 	v := g.freshFor(res)
 	switch name {
 	case "errors.New", "fmt.Errorf":
@@ -101,6 +109,91 @@ func (g *FuncGen) pureUnknown(name string, cc *ssa.CallCommon, res ssa.Value) *V
 		g.c.assert(implies(g.bcond[g.curBlock], not(eq(v.T, "0"))))
 	}
 	return &v
+}
+
+// sprintfOfStrings recognises fmt.Sprintf(<const format with only %s/%v verbs>, <string args>...) and returns
+// the concatenation term.  The variadic slice is the compiler-built `new [k]interface{}` with one store per slot.
+func (g *FuncGen) sprintfOfStrings(cc *ssa.CallCommon) (string, bool) {
+	if len(cc.Args) != 2 {
+		return "", false
+	}
+	fc, ok := cc.Args[0].(*ssa.Const)
+	if !ok || fc.Value == nil || fc.Value.Kind() != constant.String {
+		return "", false
+	}
+	format := constant.StringVal(fc.Value)
+	sl, ok := cc.Args[1].(*ssa.Slice)
+	if !ok {
+		return "", false
+	}
+	al, ok := sl.X.(*ssa.Alloc)
+	if !ok || al.Referrers() == nil {
+		return "", false
+	}
+	elems := map[int64]ssa.Value{}
+	for _, r := range *al.Referrers() {
+		ia, ok := r.(*ssa.IndexAddr)
+		if !ok {
+			continue
+		}
+		ic, ok := ia.Index.(*ssa.Const)
+		if !ok || ia.Referrers() == nil {
+			return "", false
+		}
+		for _, r2 := range *ia.Referrers() {
+			if st, ok := r2.(*ssa.Store); ok && st.Addr == ia {
+				mi, ok := st.Val.(*ssa.MakeInterface)
+				if !ok || !isString(mi.X.Type()) {
+					return "", false
+				}
+				elems[ic.Int64()] = mi.X
+			}
+		}
+	}
+	var parts []string
+	argi := int64(0)
+	lit := ""
+	flush := func() {
+		if lit != "" {
+			parts = append(parts, smtString(lit))
+			lit = ""
+		}
+	}
+	for i := 0; i < len(format); i++ {
+		if format[i] != '%' {
+			lit += string(format[i])
+			continue
+		}
+		if i+1 >= len(format) {
+			return "", false
+		}
+		i++
+		switch format[i] {
+		case '%':
+			lit += "%"
+		case 's', 'v':
+			x, ok := elems[argi]
+			if !ok {
+				return "", false
+			}
+			flush()
+			parts = append(parts, g.value(x).T)
+			argi++
+		default:
+			return "", false
+		}
+	}
+	flush()
+	if int(argi) != len(elems) {
+		return "", false
+	}
+	switch len(parts) {
+	case 0:
+		return "\"\"", true
+	case 1:
+		return parts[0], true
+	}
+	return "(str.++ " + strings.Join(parts, " ") + ")", true
 }
 
 // ---------- builtins ----------
@@ -439,7 +532,7 @@ func (g *FuncGen) havocLocation(env *Env, e Expr) {
 				c.useQuant = true
 				old := fmt.Sprintf("(select %s (s_arr %s))", g.heapOf(g.cur, cl), base.T)
 				lo := fmt.Sprintf("(s_off %s)", base.T)
-				hi := g.add64(lo, fmt.Sprintf("(s_len %s)", base.T))
+				hi := g.add64(lo, fmt.Sprintf("(s_cap %s)", base.T)) // up to cap: an in-place append writes beyond len
 				c.assert(fmt.Sprintf("(forall ((i %s)) (=> (not %s) (= (select %s i) (select %s i))))", c.intSort(64),
 					and(g.le64(lo, "i"), g.lt64("i", hi)), fresh, old))
 				g.heapStore(cl, fmt.Sprintf("(s_arr %s)", base.T), fresh)
